@@ -226,6 +226,9 @@ func (d *Ledger) recordMid(kind string, shard int, c *world.Call, mid int, dup b
 	}
 	if kind == "deliver" {
 		r, _ = d.W.Deliver(mid, dup)
+		if r == nil {
+			return nil // the message is gone (dropped after a failed first attempt): nothing was executed
+		}
 	} else {
 		r = d.W.Run(shard, c)
 	}
@@ -1021,7 +1024,9 @@ func (d *Ledger) actDeliver() {
 	r := d.recordMid("deliver", sh, c, m.ID, dup)
 	if dup {
 		// at-least-once delivery = immediate retry
-		r = d.recordMid("deliver", sh, c, m.ID, false)
+		if r2 := d.recordMid("deliver", sh, c, m.ID, false); r2 != nil {
+			r = r2
+		}
 		dup = false
 	}
 	if fn == "ESDTNFTCreateRoleTransfer" && !dup && len(args) > 0 {
